@@ -105,6 +105,15 @@ class Ctx:
                     return True
                 if name.startswith("numpy.") and name.split(".")[-1] in NUMPY_NON_NONE:
                     return True
+            if isinstance(expr, (ast.Name, ast.Attribute)) and not (isinstance(expr, ast.Name) and expr.id[:1] in "πΣ"):
+                # a module-level table bound once to a container literal (REDUCE_MAPPINGS, ...), a def or a class
+                binding = self.res.resolve_expr(module, expr, local_names)
+                if binding.kind in ("def", "class", "module"):
+                    return True
+                if binding.kind == "assign" and not binding.alts:
+                    value = getattr(binding.node, "value", None)
+                    return isinstance(value, (ast.Dict, ast.List, ast.Tuple, ast.Set)) or (
+                        isinstance(value, ast.Constant) and value.value is not None)
             return False
 
         return non_none
